@@ -228,6 +228,10 @@ impl<'b, 'a> Parser<'a, 'b> {
             return false;
         }
 
+        // whitespace and comments before the token come first, as for any
+        // other token: without this the pieces were recorded ahead of them
+        // and every piece's text was shifted by the length of that trivia
+        self.eat_trivia();
         let mut prev_end = 0;
         for (range, kind) in buf.drain(..) {
             assert_eq!(range.start, prev_end, "split cannot have gaps");
